@@ -12,18 +12,27 @@ open Gql Gql.Exec Driver
 
 namespace C02Driver
 
+/-- put `varerror` at the positions of the requests whose variables could not be coerced -/
+def weave : List Bool → List String → List String
+  | [], _ => []
+  | true :: bs, x :: xs => x :: weave bs xs
+  | true :: bs, [] => "missing" :: weave bs []
+  | false :: bs, xs => "varerror" :: weave bs xs
+
 def runCase (x : Sexp) : P String := do
   match x with
   | .list (.atom "case" :: sch :: reqs) =>
     let s ← schemaOf sch
-    let rs ← reqs.mapM reqOf
+    let rqs ← reqs.mapM (reqOfS s)
+    let oks := rqs.map (·.2)
+    let rs := (rqs.filter (·.2)).map (·.1)
     let ops := Concrete.ops
     let threaded := Impl.runAll ops s rs []
     let fresh := rs.map (fun r => (Impl.executeRequest ops s r.doc r.opName r.vars r.root []).1)
     let spec := rs.map (fun r => Spec.executeRequest ops s r.doc r.opName r.vars r.root)
-    pure (" ; ".intercalate (threaded.map showOut) ++ " # " ++
-          " ; ".intercalate (fresh.map showOut) ++ " # " ++
-          " ; ".intercalate (spec.map showResp))
+    pure (" ; ".intercalate (weave oks (threaded.map showOut)) ++ " # " ++
+          " ; ".intercalate (weave oks (fresh.map showOut)) ++ " # " ++
+          " ; ".intercalate (weave oks (spec.map showResp)))
   | _ => fail "case"
 
 def step (line : String) : String :=
